@@ -62,7 +62,32 @@ def make_operation(step):
         return Operation(CSO.Custom, operator=jnp.array(mat_of(step["U"])))
     if g == "FockCustom":
         return Operation(FO.Custom, operator=jnp.array(mat_of(step["U"])))
+    if g == "Expr":
+        # CompositeOperationType.Expression over fixed factor matrices (one per operand)
+        facs = [jnp.array(mat_of(m)) for m in step["factors"]]
+        names = [f"m{k}" for k in range(len(facs))]
+        ctx = {n: (lambda dims, M=M: M) for n, M in zip(names, facs)}
+        return Operation(CO.Expression, expr=expr_tree(step.get("form", "flat"), names), state_types=tuple(step["types"]), context=ctx)
     raise ValueError(g)
+
+
+def expr_tree(form, names):
+    """expression tuple over the factor names whose value is kron(m0, ..., mk-1) in every form"""
+    k = len(names)
+    if form == "right" and k >= 3:
+        return ("kron", names[0], expr_tree("right", names[1:]))
+    if form == "left" and k >= 3:
+        return ("kron", expr_tree("left", names[:-1]), names[-1])
+    if form == "mid" and k >= 3:
+        return ("kron", names[0], ("kron", *names[1:-1]), names[-1]) if k > 3 else ("kron", names[0], ("kron", names[1], names[2]))
+    return ("kron", *names)
+
+
+def expr_matrix(step):
+    U = np.array([[1.0 + 0j]])
+    for m in step["factors"]:
+        U = np.kron(U, mat_of(m))
+    return U
 
 
 def lean_params(step):
@@ -313,7 +338,7 @@ class Runner:
             g = st["gate"]
             # subsystems that the implementation moves to the front of their product space on the way:
             # every operand whose reduced state is read (trace_out -> reorder) and every Fock that is resized
-            if g in COMP_GATES:
+            if g in COMP_GATES or g == "Expr":
                 focks = list(T) + ([t for t in T if isinstance(w.subs[t], Fock)] if g == "BS" else [])
             elif g in FOCK_GATES or g == "FockCustom":
                 focks = [T[0], T[0]]
@@ -330,7 +355,8 @@ class Runner:
             cc = c if en == "ce" else cont_of(T[0])
             return [{"what": "trace_out", "c": cc, "entry": en, "T": T}]
         if kind == "resize":
-            return [{"what": "resize", "T": T}]
+            # a request that does not grow the space reads the reduced state first (reorders a combined envelope)
+            return [{"what": "resize", "T": T, "shrink": int(st["dim"]) <= dims_of(w.subs[T[0]])}]
         if kind == "measure":
             sep, des = bool(st.get("sep", False)), bool(st.get("destructive", True))
             M = list(T)
@@ -424,6 +450,8 @@ class Runner:
             return self.findings
         for i, st in enumerate(prog["steps"]):
             n0 = len(self.findings)
+            if st["kind"] == "stop":
+                break
             try:
                 self.step(i, st)
             except LeanError as ex:
@@ -454,7 +482,7 @@ class Runner:
         w = self.w
         targets = [w.subs[s] for s in st["targets"]]
         gate = st["gate"]
-        multi = len(targets) > 1 or gate in COMP_GATES
+        multi = len(targets) > 1 or gate in COMP_GATES or gate == "Expr"
         prop = "C03" if multi else "C01"
         if self.prog.get("focus") == "C11" and gate in ("BS", "PhaseShift"):
             prop = "C11"
@@ -484,8 +512,8 @@ class Runner:
                 self.spec_grow(sid, need)
         self.lean.call(op="save")
         req = dict(op="apply", targets=st["targets"], renorm=self.renorm_of(st))
-        if "U" in st:
-            U = mat_of(st["U"])
+        if "U" in st or gate == "Expr":
+            U = mat_of(st["U"]) if "U" in st else expr_matrix(st)
             sd = self.spec_dims()
             dT = [sd[s] for s in st["targets"]]
             if U.shape[0] != int(np.prod(dT)):
@@ -607,7 +635,7 @@ class Runner:
         h = w.handles[st.get("h", 0)] if w.handles else None
 
         def thunk():
-            if what == "kraus_not_tp" or what == "kraus_wrong_size":
+            if what.startswith("kraus_"):
                 ops = [jnp.array(mat_of(m)) for m in st["ops"]]
                 en = st.get("entry", "state")
                 if en == "state":
@@ -648,6 +676,22 @@ class Runner:
         en = st.get("entry", "ce")
         if any(getattr(t, "measured", False) for t in targets):
             return self.expect_reject(i, st, before, lambda: self.call_kraus(st, targets, ops), "C05", "channel on a destroyed subsystem")
+        if st.get("weak"):
+            # a weak channel that leaves the state *nearly* pure: the library contracts a density matrix
+            # whose purity is within 1e-6 of 1; the step is only run when the specification's purity
+            # deficit is clearly outside that window, so that the expected behaviour is unambiguous
+            sd0 = self.spec_dims()
+            if [sd0[x] for x in st["targets"]] != [dims_of(t) for t in targets]:
+                self.diverged = True
+                return
+            self.lean.call(op="save")
+            self.lean.call(op="kraus", targets=st["targets"], ops=[carr(K) for K in ops])
+            deficit = 1 - self.spec_get()[4]
+            self.lean.call(op="restore")
+            if 1e-9 < deficit < 2.5e-6:
+                self.diverged = True
+                return
+            self.stats["weak_channels"] = self.stats.get("weak_channels", 0) + 1
         err = None
         try:
             self.call_kraus(st, targets, ops)
@@ -669,7 +713,8 @@ class Runner:
             # a channel defined on the truncated space: only valid if the spec state lives there
             pass
         self.lean.call(op="kraus", targets=st["targets"], ops=[carr(K) for K in ops2])
-        self.compare_states("C06", i)
+        # nearly pure result: what is judged is whether the automatic contraction kept the state (C08)
+        self.compare_states("C08" if st.get("weak") else "C06", i, what="joint state after a weak channel (nearly pure)" if st.get("weak") else "joint state")
         # result must be a density matrix unless provably pure
         self.check_invariants(i)
         self.frame_check(i, before, self.touched_blocks(before, st["targets"]))
@@ -839,9 +884,14 @@ class Runner:
             if d1 != d0 and not (t.dimensions == new and new == d0):
                 self.findings.append(Finding("C10", f"resize({new}) reported failure but the dimension changed {d0}->{d1}", i))
         # in both cases the physical state must be unchanged (nothing lost)
+        n0 = len(self.findings)
         self.compare_states("C10", i)
         self.spec_trim()
         self.check_invariants(i)
+        for f in list(self.findings[n0:]):
+            if f.prop in ("C13", "C07"):
+                # the stored array no longer fits the reported dimensions: the resize lost / garbled data
+                self.findings.append(Finding("C10", f"after resize({new}) of fock{sid} via {en} (reported {'success' if res else 'failure'}): {f.msg}", i))
         self.frame_check(i, before, self.touched_blocks(before, st["targets"]))
         self.partition_check(i, st, before, False)
 
@@ -887,7 +937,8 @@ class Runner:
             self.findings.append(Finding("C05", f"measure{st['targets']} via {en} (sep={sep}, destructive={des}) raised {type(err).__name__}: {str(err)[:160]}", i))
             return
         st["_draws"] = len(spy.draws)
-        self.draw_keys = getattr(self, "draw_keys", []) + [d["key"] for d in spy.draws]
+        if not self.fresh_keys(i, spy.draws, "C04"):
+            return
         # which subsystems had to be measured
         expected = set(st["targets"])
         if not sep:
@@ -935,6 +986,23 @@ class Runner:
         self.check_invariants(i)
         touched = self.touched_blocks(before, expected)
         self.frame_check(i, before, touched)
+
+    def fresh_keys(self, i, draws, prop):
+        """every random draw of a program consumes its own key (PW.Rng: the keys along a run are
+        pairwise distinct); a reused key makes two outcomes functions of the same random bits, so the
+        later one is not drawn with its conditional Born probability"""
+        seen = getattr(self, "draw_keys", [])
+        ok = True
+        for k, d in enumerate(draws):
+            key = repr(d["key"])
+            if key in seen:
+                ok = False
+                for pr in (prop, "C14"):
+                    self.findings.append(Finding(pr, f"random draw {k} of this call reuses the key of an earlier draw ({d['key']}): the outcomes are correlated instead of independently drawn from their conditional distributions", i))
+                break
+            seen = seen + [key]
+        self.draw_keys = seen
+        return ok
 
     def call_measure(self, st, targets, sep, des):
         en = st.get("entry", "ce")
@@ -1023,7 +1091,8 @@ class Runner:
         if err is not None:
             self.findings.append(Finding("C09", f"measure_POVM on {st['targets']} via {en} (destructive={des}) raised {type(err).__name__}: {str(err)[:160]}", i))
             return
-        self.draw_keys = getattr(self, "draw_keys", []) + [d["key"] for d in spy.draws]
+        if not self.fresh_keys(i, spy.draws, "C09"):
+            return
         if not spy.draws:
             self.findings.append(Finding("C09", "POVM made no random draw", i))
             return
